@@ -86,6 +86,11 @@ CHECKS = {
    "Literal = character code, explicit number kept, all codes distinct and never -1/0; `const NAME = n` equals the code for every named token (no other constants); translate maps each code to its own symbol id, -1 to the end marker and every other integer to the error column.",
    "Assumes the statement's proviso (explicit numbers distinct from each other and from literal codes used).",
    "3/C11"),
+ "C18": ("exploration",
+   "exhaustive enumeration of bounded grammar classes plus families: the gographviz graph object returned by DrawGrammar and the text of the debug listing are parsed and compared with the tables and the LR(0) automaton of the same run (nodes/items/edges/reduce annotations/accept mark; record-label structure; DOT text re-parsed; listing items, GOTO lines, lookahead lines; listing vs table cell by cell with reference conflict cells as the only allowed differences)",
+   "For every usable grammar explored: graph and listing show exactly the states, items, transitions, reduce lookaheads and accepting state of the automaton the tables implement, numbered as in the tables.",
+   "Trusted: gographviz parser for DOT syntax, the reference conflict classification for listing-vs-table differences. The PNG rendering through the external dot program is not checked (dot is not installed).",
+   "3/C18"),
 }
 
 PENDING = {}
